@@ -106,6 +106,31 @@ def handleOne (m : MRS) (d : Doc) (c : Json) : Except String Json := do
       match stagedApi uniq key m with
       | .error e => pure (jErr (errTagE e))
       | .ok (e, w) => pure (jResult m d e w)
+  | "mkuniq" =>
+    -- `make_ids_unique` on its own, on a graph EDITED after `from_mrs(m, pm, False, key)`: extra edges
+    -- between nodes (by position) and another top
+    match fromMrsApi pm false key m with
+    | .error e => pure (jErr (errTagE e))
+    | .ok (e0, w) =>
+      let extra ← (← getArr c "extra").mapM (fun x => do
+        match (← x.getArr?).toList with
+        | [s, r, t] => pure ((← s.getNat?), (← r.getStr?), (← t.getNat?))
+        | _ => throw "bad extra edge")
+      let idAt := fun (k : Nat) => ((e0.nodes.drop k).head?.map (·.id)).getD ⟨"?", 0⟩
+      let nodes := extra.foldl (fun (ns : List ENode) (x : Nat × String × Nat) =>
+        ns.zipIdx.map (fun ni => if ni.2 == x.1 then { ni.1 with edges := dset x.2.1 (idAt x.2.2) ni.1.edges } else ni.1))
+        e0.nodes
+      let top ← match c.getObjVal? "top" with
+        | .ok (Json.str "keep") => pure e0.top
+        | .ok Json.null => pure none
+        | .ok j => do pure (some (idAt (← j.getNat?)))
+        | .error _ => pure e0.top
+      let e1 : EDS := { top := top, nodes := nodes }
+      if !idOrderDetermined m e1.nodes then
+        return Json.mkObj [("unmodelled", Json.str "set_order"), ("ids", jList jVar m.ids)]
+      match makeIdsUnique m e1 with
+      | .error e => pure (jErr (errTagE e))
+      | .ok e2 => pure (jResult m d e2 w)
   | "direct" =>
     match fromMrsApi pm false key m with
     | .error e => pure (jErr (errTagE e))
